@@ -2,10 +2,10 @@
 package main
 
 import (
-	"golang.org/x/tools/go/ssa"
 	"encoding/json"
 	"flag"
 	"fmt"
+	"golang.org/x/tools/go/ssa"
 	"os"
 	"path/filepath"
 	"sort"
